@@ -233,8 +233,59 @@ fn roundtrips(out: &mut Out, r: &mut Rng, count: u64) {
     for i in 0..count {
         let m128 = i % 2 == 1;
         let seed = r.below(1 << 16) as u32;
-        let (d, ramw) = random_desc(r, m128, seed);
+        let (mut d, mut ramw) = random_desc(r, m128, seed);
+        // two thirds of the machines are caught while running known code, so that "CPU-visible state equals the state at
+        // the moment of saving" can also be judged by what the restored machine does next: a few INC A, or - DI; HALT -
+        // a CPU that sits halted when the snapshot is taken (the format has no flag for that: it is in the saved PC)
+        let frame = if m128 { FRAME_128 } else { FRAME_48 };
+        let mut kind = r.below(3);
+        let pc = d.cpu.pc;
+        let clash = !m128 && (0..4u16).any(|k| { let a = pc.wrapping_add(k); a == d.cpu.sp.wrapping_sub(1) || a == d.cpu.sp.wrapping_sub(2) });
+        if !(0x4000..0xFFF0).contains(&pc) || clash {
+            kind = 0;
+        }
+        if kind > 0 {
+            let code: [u8; 4] = if kind == 1 { [0x3C, 0x3C, 0x3C, 0x3C] } else { [0x76, 0x3C, 0x3C, 0x3C] };
+            for (k, v) in code.iter().enumerate() {
+                let a = pc + k as u16;
+                let bank = match a >> 14 { 1 => 5usize, 2 => 2, _ => if m128 { (d.latch & 7) as usize } else { 0 } };
+                d.banks[bank][(a & 0x3FFF) as usize] = *v;
+                ramw.push((bank, a & 0x3FFF, *v));
+            }
+            if kind == 2 {
+                d.cpu.iff1 = false;
+                d.cpu.iff2 = false;
+            }
+        }
+        let park = |e: &mut Emu| {
+            let t = e.verif_frame_clocks();
+            if t < 64 {
+                e.verif_wait(200);
+            } else if t + 400 > frame {
+                e.verif_wait(frame - t + 200);
+            }
+        };
+        let proj = |e: &mut Emu| -> Value {
+            let s = cpu_state(e.verif_cpu());
+            json!([s["pc"], s["sp"], s["a"], s["f"], s["b"], s["c"], s["d"], s["e"], s["h"], s["l"], s["ix"], s["iy"], s["i"], s["r"], s["iff2"], s["im"], s["halted"]])
+        };
+        let cont = |e: &mut Emu| -> Vec<Value> {
+            park(e);
+            (0..4).map(|_| { step(e); proj(e) }).collect()
+        };
+        // the same machine twice: one to take the snapshot from, one to see how it would have gone on
         let mut emu = build_from(&d);
+        let mut twin = build_from(&d);
+        if kind == 2 {
+            for e in [&mut emu, &mut twin] {
+                park(e);
+                step(e);
+            }
+            // at the moment of saving: one more refresh cycle, and PC wherever a halted CPU of this emulator keeps it
+            d.cpu.r = (d.cpu.r & 0x80) | (d.cpu.r.wrapping_add(1) & 0x7F);
+            d.cpu.pc = emu.verif_cpu().regs.get_pc();
+        }
+        let cont_ref: Vec<Value> = if kind > 0 { cont(&mut twin) } else { vec![] };
         let before = machine_state(&mut emu);
         // ---- save
         let buf = Rc::new(RefCell::new(Vec::new()));
@@ -283,6 +334,7 @@ fn roundtrips(out: &mut Out, r: &mut Rng, count: u64) {
             };
             let lr = rx.load_snapshot(Snapshot::Sna(VAsset::new(file.clone())));
             let st = machine_state(&mut rx);
+            let cont_rx: Vec<Value> = if kind > 0 && lr.is_ok() { cont(&mut rx) } else { cont_ref.clone() };
             // RAM expected: the saved RAM; on the 48K the two bytes below SP hold PC (format)
             let mut want = d.banks.clone();
             if !m128 {
@@ -295,11 +347,11 @@ fn roundtrips(out: &mut Out, r: &mut Rng, count: u64) {
                     }
                 }
             }
-            loads.push(json!({"target":target,"ok":lr.is_ok(),"state":st,"ram_diff":ram_diff(&rx, m128, &want)}));
+            loads.push(json!({"target":target,"ok":lr.is_ok(),"state":st,"ram_diff":ram_diff(&rx, m128, &want),"cont":cont_rx}));
         }
         let ramw_j: Vec<Value> = ramw.iter().map(|(b, o, v)| json!([b, o, v])).collect();
         out.ev(json!({"ev":"roundtrip","m": if m128 {128} else {48},"seed":seed,"desc":{"cpu":d.cpu.json(),"border":d.border,"latch":d.latch},
-                      "ramw":ramw_j,"before":before,
+                      "ramw":ramw_j,"before":before,"kind":kind,"cont_ref":cont_ref,
                       "save":{"ok":res.is_ok(),"len":file.len(),"samples":samples,"full_equal":file == reference,
                               "after":after_save,"ram_side_effects":side},
                       "loads":loads}));
@@ -348,6 +400,12 @@ fn in_port(emu: &mut Emu, port: u16) -> u8 {
 /// frames (nothing writes memory), the canvas is sampled at random pixels, then CPU and the two code bytes are restored.
 /// `avoid`: display-file offsets the loader itself legitimately changed (48K SNA: PC left on the stack)
 fn display_sample(emu: &mut Emu, r: &mut Rng, avoid: &[usize], out7ffd: Option<u8>) -> Vec<Value> {
+    display_sample2(emu, r, avoid, out7ffd, None).1
+}
+
+/// `first_from`: also sample the first frame that completes (the one the loaded machine continues), at picture lines the
+/// beam reaches after that in-frame time; returns (samples of that frame, samples of the following frame)
+fn display_sample2(emu: &mut Emu, r: &mut Rng, avoid: &[usize], out7ffd: Option<u8>, first_from: Option<(usize, bool)>) -> (Vec<Value>, Vec<Value>) {
     let saved_mem: Vec<u8> = (0..4u16).map(|k| emu.peek(0x8000 + k)).collect();
     // with `out7ffd`: OUT (C),A first (the program switches the displayed screen), then the loop
     match out7ffd {
@@ -371,9 +429,31 @@ fn display_sample(emu: &mut Emu, r: &mut Rng, avoid: &[usize], out7ffd: Option<u
     }
     emu.set_debug_interface(VDebug::Never);
     emu.set_speed(rustzx_core::EmulationMode::FrameCount(1));
-    for _ in 0..2 {
+    // (a frame that ended during the receiver's earlier single-stepped life may still be waiting to be handed over: that
+    // call executes nothing)
+    let (t_before, r_before) = (emu.verif_frame_clocks(), emu.verif_cpu().regs.get_r());
+    let _ = emu.emulate_frames(std::time::Duration::from_secs(100));
+    if emu.verif_frame_clocks() == t_before && emu.verif_cpu().regs.get_r() == r_before {
         let _ = emu.emulate_frames(std::time::Duration::from_secs(100));
     }
+    let mut first = vec![];
+    if let Some((from_t, m128)) = first_from {
+        let (t0, line) = if m128 { (14362usize, 228usize) } else { (14336usize, 224usize) };
+        let y0 = if from_t + 32 <= t0 { 0 } else { (from_t + 32 - t0) / line + 1 };
+        let px = emu.screen_buffer().px.clone();
+        let mut tries = 0;
+        while y0 < 192 && first.len() < 24 && tries < 500 {
+            tries += 1;
+            let (x, y) = (r.below(256) as usize, y0 + r.below((192 - y0) as u64) as usize);
+            let bo = ((y / 64) * 2048) + ((y % 8) * 256) + (((y / 8) % 8) * 32) + x / 8;
+            let ao = 6144 + (y / 8) * 32 + x / 8;
+            if avoid.contains(&bo) || avoid.contains(&ao) {
+                continue;
+            }
+            first.push(json!([x, y, px[y * 256 + x]]));
+        }
+    }
+    let _ = emu.emulate_frames(std::time::Duration::from_secs(100));
     while emu.next_audio_sample().is_some() {}
     let px = emu.screen_buffer().px.clone();
     let mut v = vec![];
@@ -397,7 +477,7 @@ fn display_sample(emu: &mut Emu, r: &mut Rng, avoid: &[usize], out7ffd: Option<u
     c.regs.verif_set_q(saved.6);
     c.regs.set_bc(saved.7);
     c.regs.set_af(saved.8);
-    v
+    (first, v)
 }
 
 /// C14: independently written files loaded into emulators of either model
@@ -480,11 +560,14 @@ fn fileloads(out: &mut Out, r: &mut Rng, count: u64) {
             }
         }
         let ay = if r.chance(2, 3) { Some((r.below(16) as u8, ayregs)) } else { None };
+        // SZX files say at which T-state of its frame the machine was saved
+        let flen = if m_file { FRAME_128 } else { FRAME_48 };
+        let cycles = if r.chance(1, 2) { 0 } else { r.below(flen as u64 - 2000) as u32 };
         let mouse = match r.below(3) { 0 => None, 1 => Some(2u8), _ => Some(0u8) };
         let encs: Vec<(&str, Vec<u8>)> = vec![
             ("sna", if m_file { sna128(&d) } else { sna48(&d) }),
-            ("szx", szx(&d, &SzxOpts { halted, eilast, ay, mouse, ..Default::default() })),
-            ("szxz", szx(&d, &SzxOpts { compressed: true, shuffle: r.next() | 1, junk_chunks: true, halted, eilast, ay, mouse, ..Default::default() })),
+            ("szx", szx(&d, &SzxOpts { halted, eilast, ay, mouse, cycles, ..Default::default() })),
+            ("szxz", szx(&d, &SzxOpts { compressed: true, shuffle: r.next() | 1, junk_chunks: true, halted, eilast, ay, mouse, cycles, ..Default::default() })),
         ];
         let ramw_j: Vec<Value> = ramw.iter().map(|(b, o, v)| json!([b, o, v])).collect();
         for (enc, bytes) in encs.iter() {
@@ -513,6 +596,14 @@ fn fileloads(out: &mut Out, r: &mut Rng, count: u64) {
                     }
                     _ => {}
                 }
+                // the file arrives at a frame boundary or somewhere in the middle of the receiver's frame (a breakpoint stop)
+                if m_emu == m_file && r.chance(1, 2) {
+                    let t = rx.verif_frame_clocks();
+                    if t + 3000 < flen {
+                        rx.verif_wait(r.below((flen - t - 2000) as u64) as usize);
+                    }
+                }
+                let t_rx = rx.verif_frame_clocks();
                 let before = machine_state(&mut rx);
                 let b2 = bytes.clone();
                 let is_sna = *enc == "sna";
@@ -561,7 +652,13 @@ fn fileloads(out: &mut Out, r: &mut Rng, count: u64) {
                             }
                         }
                     }
-                    ev["pix"] = json!(display_sample(&mut rx, r, &avoid, None));
+                    // the frame the machine continues: what the beam reaches after the moment of the load (SNA: the receiver's
+                    // own clock goes on; SZX: the file's) shows the file's screen already
+                    let from_t = if is_sna { t_rx } else { cycles as usize };
+                    let (pf, pm) = display_sample2(&mut rx, r, &avoid, None, Some((from_t, m_file)));
+                    ev["pix_first"] = json!(pf);
+                    ev["first_from"] = json!([from_t, t_rx, cycles]);
+                    ev["pix"] = json!(pm);
                     // 128K with paging not locked: the program switches to the other screen bank - the display must
                     // show that bank as the file describes it - and back
                     if m_file && d.latch & 0x20 == 0 {
